@@ -32,7 +32,7 @@ for i in range(1, 10):
                 sel.add(d["id"])
         checks = sorted(sel)
     for c in checks:
-        p = subprocess.run("VERIF_FROZEN=1 VERIF_REPO=%s ./check %s quick" % (wt, c), shell=True, cwd="/verif", stdout=subprocess.PIPE, stderr=subprocess.STDOUT)
+        p = subprocess.run("VERIF_FROZEN=1 VERIF_REPO=%s ./check %s quick" % (wt, c), shell=True, cwd=os.environ.get("VERIF_ROOT", "/verif"), stdout=subprocess.PIPE, stderr=subprocess.STDOUT)
         out = p.stdout.decode("utf-8", "replace")
         v = [l for l in out.split("\n") if l.startswith("VIOLATION")]
         if v or p.returncode:
